@@ -15,7 +15,7 @@ func init() {
 		Level: "exploration",
 		Rule: "one run = one node with a sink (zero-size symbol or MSINK menu) with MNEXT/MPREV, generated rows (lengths around the per-page capacity, empty rows, trailing empty rows, single row, 0 rows, a row longer than a page), output size, labels, separator, non-sink values and ordinary menu; a client walks 'next' from index 0 until it is no longer offered, sends 'next' once more, walks back with 'previous' and sends 'previous' once more - every page request is a separate engine request with a restart in between (persisted) or on one long-lived engine; " +
 			"non-trivial = the walk covered at least 2 pages; distinct = distinct (rows per page) partitions",
-		Runs:       map[string]int{"quick": 110000, "thorough": 3000000},
+		Runs:       map[string]int{"quick": 110000, "thorough": 6000000},
 		MaxSeconds: map[string]int{"quick": 40, "thorough": 900},
 		Run:        runC02,
 		Assumptions: []string{
@@ -251,6 +251,20 @@ func runC02(c *core.Ctx) *core.Outcome {
 	}
 	if st.ExecErr != "" || st.FlushErr != "" {
 		o.Probes["first_page_refused"]++
+		// a client browsing on anyway: if page 1 exists and offers 'previous', page 0 must render
+		if st.ExecErr == "" {
+			s1 := S.Request([]byte(x.nextSel), persisted)
+			o.Counts["requests"]++
+			if s1.Panic == "" && s1.ExecErr == "" && s1.FlushErr == "" {
+				if p1, ok := parse(s1); ok && p1.hasPrev {
+					s0 := S.Request([]byte(x.prevSel), persisted)
+					o.Counts["requests"]++
+					if s0.Panic == "" && (s0.ExecErr != "" || s0.FlushErr != "") {
+						return fail("offered-previous-does-not-render", 2, "page 1 renders and offers 'previous' (%s) but page 0 does not render: exec %q flush %q", short(s1.Out), s0.ExecErr, s0.FlushErr)
+					}
+				}
+			}
+		}
 		return finish(o, w, wu)
 	}
 	p0, ok := parse(st)
